@@ -115,10 +115,12 @@ package file
 //@   property C07
 //@   trusted
 //@   effect $Complete := err == nil
+//@   effect $CreateErr := err != nil
 
 // (call-site view of CreateODS: nil means written, flushed and closed, see its contract below)
 //@ extern github.com/celestiaorg/celestia-node/store/file.CreateODS
 //@   effect $Complete := err == nil
+//@   effect $CreateErr := err != nil
 
 //@ func CreateODS
 //@   property C07
